@@ -148,6 +148,10 @@ def subclasscheck(t1, t2):
     if o1 or o2:
         o1 = o1 or t1
         o2 = o2 or t2
+        if o1 is type and o2 is t2 and isinstance(t2, type) and issubclass(t2, type):
+            # type[X] against a metaclass: X is a class that was passed as
+            # an argument, and a metaclass accepts its instances
+            return t2 is type or isinstance(get_args(t1)[0], t2)
         if issubclass(o1, o2):
             if o2 is t2:  # pragma: no cover
                 return True
